@@ -1455,7 +1455,18 @@ pub enum PrintMode {
     Quoted,
     /// Plain + tabs / newlines / doubled blanks wherever whitespace is optional or required
     Spaced,
+    /// Plain + a boost on exactly one parenthesised clause: the k-th in printing order, the whole
+    /// query counting as one (a boost on every clause at once can cancel a defect out)
+    BoostOne(u8),
 }
+
+thread_local! {
+    /// clauses printed so far by the current `print_query` call (`PrintMode::BoostOne`)
+    static CLAUSES_PRINTED: std::cell::Cell<u8> = const { std::cell::Cell::new(0) };
+}
+
+/// how many clauses `PrintMode::BoostOne` tries
+pub const BOOST_ONE_MAX: u8 = 12;
 
 impl PrintMode {
     pub fn label(self) -> &'static str {
@@ -1466,6 +1477,7 @@ impl PrintMode {
             PrintMode::Parens => "with-redundant-parentheses",
             PrintMode::Quoted => "with-quoted-values",
             PrintMode::Spaced => "with-extra-whitespace",
+            PrintMode::BoostOne(_) => "with-a-boost-on-one-clause",
         }
     }
 }
@@ -1874,6 +1886,12 @@ fn print_node(
     if is_group && atomic {
         s = wrap(s, rng, mode);
         boostable = true;
+        if let PrintMode::BoostOne(k) = mode {
+            let idx = CLAUSES_PRINTED.with(|c| c.replace(c.get().saturating_add(1)));
+            if idx == k && allow_boost {
+                s.push_str("^2");
+            }
+        }
     }
     if noisy {
         // redundant parentheses
@@ -1901,7 +1919,9 @@ fn print_node(
 }
 
 pub fn print_query(n: &Node, rng: &mut Rng, mode: PrintMode) -> String {
-    let body = print_node(n, rng, mode, mode == PrintMode::Boosted && !matches!(n, Node::Leaf(_)), true, None);
+    CLAUSES_PRINTED.with(|c| c.set(0));
+    let whole_is_operand = matches!(mode, PrintMode::Boosted | PrintMode::BoostOne(_)) && !matches!(n, Node::Leaf(_));
+    let body = print_node(n, rng, mode, whole_is_operand, true, None);
     format!("{}{body}{}", ws(rng, mode, false), ws(rng, mode, false))
 }
 
